@@ -66,6 +66,10 @@ def run_convert(spec=None, probes=None, label='', factor=1, extra_files=(), same
                 truths.append(dsgen.make_dataset(sd, mc_.probe_spec(p, fill)))
                 subdirs.append(sd)
             src = d / 'src'
+            if len(probes) >= 2:
+                # the probes were already merged once, into another directory: merging reads them only
+                m0_ = Merger(subdirs, d / 'merged-before').merge()
+                m0_.close()
             mm = Merger(subdirs, src).merge()
             mm.close()
             res['truths'] = truths
